@@ -712,6 +712,26 @@ def _all_failures(case):
                 okp, reparsed = call(_Cell.one_from_boc, boc_before)
                 if okp and reparsed.hash != c1.hash:
                     fails.append(Fail('parsed-values-alias-the-cell/cell-content-no-longer-matches-its-hash', ''))
+    # (G) the stack behind a prefix the caller has already consumed (a VmStack embedded after other fields of a cell)
+    if not fails and not mutated and len(c1.bits) + 3 <= 1023:
+        from pytoniq_core.boc.builder import Builder as _B2
+        with_ref = len(c1.refs) < 4
+        okb, pc = call(lambda: (_B2().store_bits('101').store_ref(c1) if with_ref else _B2().store_bits('101')).store_cell(c1).end_cell())
+        if okb:
+            ps = pc.begin_parse()
+            ps.load_bits(3)
+            if with_ref:
+                ps.load_ref()
+            okp, backp = call(VmStack.deserialize, ps)
+            if not okp:
+                fails.append(Fail(f'behind-a-consumed-prefix/raises/{exc_sig(backp)}', repr(backp)))
+            else:
+                for m in diff([norm(x) for x in backp], want):
+                    fails.append(Fail(f'behind-a-consumed-prefix/{m.cls}', f'{m.path}: {m.detail}'))
+                    break
+                else:
+                    if ps.remaining_bits or ps.remaining_refs:
+                        fails.append(Fail('behind-a-consumed-prefix/leftover', f'{ps.remaining_bits} bits / {ps.remaining_refs} refs'))
     # (E) what the parser returns is itself a stack of supported values: serialising it again gives the same cell. Not asserted
     # when a continuation carries a control-data stack or save list: the parser returns those two as a list / a dict while
     # the writer takes cells (a representation asymmetry, like a parsed slice being a Slice).
